@@ -132,6 +132,8 @@ Inductive op :=
 | ScoreSlice (s : nat) (i j : nat)            (* s[i:j]: fresh copies of all chords but the last, which is SHARED *)
 | ScoreMap (s : nat) (u : upd)                (* s.copy(), s.to_score(), s.set_amp(a): fresh copies *)
 | ScoreRepeat (s : nat) (k : nat)             (* s * k: k fresh copies of every chord, one after the other (also for k = 1) *)
+| ChordRepeat (c : nat) (k : nat)             (* c * k: a score of k fresh copies of the chord *)
+| NoteRepeat (a : nat) (k : nat)              (* n * k: a melody of k fresh copies of the note *)
 | EditFirstNotes (s : nat) (vals : list (list (Z * Z))). (* VoiceLeading.get_score: copy the score, then ASSIGN val/octave of the
                                                             first note of each part of the copy (one (val, octave) per part) *)
 
@@ -237,6 +239,16 @@ Definition step_heap (h : heap) (o : op) : option (heap * nat) :=
       | Some (CScore cs) => do x <- copy_chords h UCopy (concat (repeat cs k)) ;; Some (alloc (fst x) (CScore (snd x)))
       | _ => None
       end
+  | ChordRepeat c k =>
+      match get h c with
+      | Some (CChord _ _ _ _ _) => do x <- copy_chords h UCopy (repeat c k) ;; Some (alloc (fst x) (CScore (snd x)))
+      | _ => None
+      end
+  | NoteRepeat a k =>
+      match get h a with
+      | Some (CNote _) => do x <- copy_notes h UCopy (repeat a k) ;; Some (alloc (fst x) (CMel (snd x)))
+      | _ => None
+      end
   | EditFirstNotes s vss =>
       match get h s with
       | Some (CScore cs) => do x <- copy_chords h UCopy cs ;;
@@ -269,6 +281,8 @@ Definition resolve (pl : list nat) (o : op) : option op :=
   | ScoreSlice s i j => do s' <- ad s ;; Some (ScoreSlice s' i j)
   | ScoreMap s u => do s' <- ad s ;; Some (ScoreMap s' u)
   | ScoreRepeat s k => do s' <- ad s ;; Some (ScoreRepeat s' k)
+  | ChordRepeat c k => do c' <- ad c ;; Some (ChordRepeat c' k)
+  | NoteRepeat a k => do a' <- ad a ;; Some (NoteRepeat a' k)
   | EditFirstNotes s vss => do s' <- ad s ;; Some (EditFirstNotes s' vss)
   end.
 
